@@ -125,6 +125,13 @@ func (env *SpecEnv) eval(e Expr) (Val, types.Type) {
 		if g, ok := vc.gglobals[x.Name]; ok {
 			s := ghostSort(g.GoTyp)
 			gt := ghostType(g.GoTyp)
+			if strings.HasPrefix(g.GoTyp, "ref[") {
+				nt, err := vc.resolveNamed(g.GoTyp[4:len(g.GoTyp)-1], env.pkg)
+				if err != nil {
+					sfail("ghost global %s: %v", g.Name, err)
+				}
+				return Sc{st.arrayIn(env.snap(), "GG_"+g.Name, s), s}, types.NewPointer(nt)
+			}
 			if _, isSet := gt.(*setType); isSet {
 				return SetV{T: st.arrayIn(env.snap(), "GG_"+g.Name, s), K: SInt}, gt
 			}
